@@ -588,7 +588,12 @@ class SourceWeightedPDFRatio(
         for k in range(n_sources):
             src_mask = src_idxs == k
             R_i[evt_idxs[src_mask]] += R_ik[src_mask] * a_k[k]
-        R_i /= A
+        # A dataset in which no source has any signal yield (A == 0) has
+        # vanishing numerators as well. Avoid the 0/0 division, which would
+        # turn the log-likelihood ratio of the entire analysis into NaN although
+        # such a dataset gets zero signal events assigned (f_j == 0).
+        if A > 0:
+            R_i /= A
 
         self._cache_R_ik = R_ik
         self._cache_R_i = R_i
@@ -677,7 +682,8 @@ class SourceWeightedPDFRatio(
                     a_k[k] * R_ik_grad[src_mask]
 
         R_i_grad += src_sum_i
-        R_i_grad /= A
+        if A > 0:
+            R_i_grad /= A
 
         return R_i_grad
 
